@@ -214,8 +214,8 @@ def stmt_case(S: dict, sizes: list[int], regs: list[int], idx: list[int], cidx: 
     raise AssertionError(stmt)
 
 
-def g_stmt(k0: int, s0: int, s1: int, s2: int, j0: int, j1: int, j2: int, r0: int, r1: int, r2: int, c0: int) -> bool:
-    """post: _"""
+@rt.natively
+def _g_stmt_body(k0: int, s0: int, s1: int, s2: int, j0: int, j1: int, j2: int, r0: int, r1: int, r2: int, c0: int) -> bool:
     rt.begin()
     S = rt.SHARD['cases'][rt.P(k0, 0, len(rt.SHARD['cases']) - 1)]
     nreg, pattern = S['nreg'], S['pattern']
@@ -259,3 +259,10 @@ def g_stmt(k0: int, s0: int, s1: int, s2: int, j0: int, j1: int, j2: int, r0: in
     if sorted(o[2] for o in ops if o[2] is not None) != sorted(e[2] for e in exp if e[2] is not None):
         return rt.fail('G:%s:measurement-key' % fam)
     return True
+
+
+def g_stmt(k0: int, s0: int, s1: int, s2: int, j0: int, j1: int, j2: int, r0: int, r1: int, r2: int, c0: int) -> bool:
+    """post: _"""
+    return _g_stmt_body(k0, s0, s1, s2, j0, j1, j2, r0, r1, r2, c0)
+
+
